@@ -9,7 +9,7 @@ import (
 
 func init() {
 	roots := []string{"./private/segment/segverifier", "./pkg/segment", "./private/trust", "./private/trust/compat",
-		"./pkg/scrypto/signed"}
+		"./pkg/scrypto/signed", "./private/trust/grpc", "./private/trust/connect"}
 	register(&PropRule{
 		ID:    "C24",
 		Roots: roots,
@@ -74,6 +74,7 @@ func init() {
 }
 
 func runC24(c *Ctx) {
+	c24FetchedChains(c)
 	psT := "(*pkg/segment.PathSegment)"
 	// A1: sibling agreement on associated data
 	if v := c.View(psT + ".AddASEntry"); v != nil {
